@@ -40,11 +40,18 @@ class FakeSocket:
         pass
 
     def connect_ex(self, addr):
-        return 0
+        self.connect_addr = addr
+        err = getattr(self, "connect_errno", 0)
+        if callable(err):
+            err = err(addr)
+        self.connect_failed = err not in (0, 115)
+        return err
 
     def recv(self, n):
         if self.closed:
             raise OSError(9, "Bad file descriptor")
+        if getattr(self, "connect_failed", False):
+            raise OSError(107, "Transport endpoint is not connected")      # a socket whose connect() failed: the selector reports it, recv() raises
         if not self.inbox and not self.peer_closed:
             # a non-blocking socket with nothing to read (the selector would not have reported it readable)
             raise BlockingIOError(11, "Resource temporarily unavailable")
